@@ -75,10 +75,14 @@ template <class P> struct S {
             { UV u(V3(g(), g(), g())); Rot Ra(a1, u); ++evals;
               M33 ux = crossMat(V3(u)); M33 rod = M33(1) + std::sin(a1) * ux + (1 - std::cos(a1)) * (ux * ux);
               if (!(ortho(Ra) <= tight) || !((Ra.asMat33() - rod).norm() <= tight)) fail("angle-axis:not-rodrigues", "angle %a axis %a %a %a", (double)a1, (double)u[0], (double)u[1], (double)u[2]); }
-            // one axis / two axes
-            { UV u(V3(g(), g(), g())); V3 v(g(), g(), g()); if (t % 4 == 0) v = V3(u) * g() + V3(P(1e-3 * G()), P(1e-3 * G()), P(1e-3 * G()));
+            // one axis / two axes (second vector random, or exactly/very nearly parallel so that the one-axis fallback is taken;
+            // the badly conditioned band just above the fallback threshold is probed separately in conditioning())
+            { UV u(V3(g(), g(), g())); V3 v(g(), g(), g()); if (t % 4 == 0) v = V3(u) * g() + V3(P(1e-6 * G()), P(1e-6 * G()), P(1e-6 * G())); if (t % 16 == 0) v = V3(0);
+              P sth = (V3(u) % v).norm() / std::max<P>(v.norm(), P(1e-30));
               int i = t % 3, j = (t / 3) % 3; Rot R2(u, ax[i], v, ax[j]); Rot R1(u, ax[i]); evals += 2;
+              if (!(sth > P(1.5e-4) && sth < P(5e-2)))
               if (!(ortho(R2) <= tight) || !((V3(R2(ax[i])) - V3(u)).norm() <= tight)) fail("two-axes:not-proper", "axes %d %d u %a %a %a v %a %a %a err %g", i, j, (double)u[0], (double)u[1], (double)u[2], (double)v[0], (double)v[1], (double)v[2], (double)ortho(R2));
+              if (i != j && sth > P(5e-2) && !(dot(V3(R2(ax[j])), v) > 0)) fail("two-axes:second-axis-not-towards-v", "axes %d %d", i, j);
               if (!(ortho(R1) <= tight) || !((V3(R1(ax[i])) - V3(u)).norm() <= tight)) fail("one-axis:not-proper", "axis %d u %a %a %a", i, (double)u[0], (double)u[1], (double)u[2]); }
             // reexpress, products, transforms
             { Rot A = randRot(), B = randRot(); Sym Sm(g(), g(), g(), g(), g(), g());
@@ -98,8 +102,19 @@ template <class P> struct S {
         }
     }
 };
+// deterministic probe (independent of the seed): second vector at a small angle to the first, above the fallback threshold
+template <class P> static void conditioning() {
+    typedef Vec<3,P> V3; typedef UnitVec<P,1> UV; typedef Rotation_<P> Rot;
+    UV u(V3(P(0.3), P(-0.5), P(0.8))); V3 w = V3(UV(V3(P(0.7), P(0.2), P(-0.4)) % V3(u)));
+    P worst = 0; double at = 0;
+    for (double st = 3e-2; st > 1.3e-4; st /= 1.07) { V3 v = V3(u) * P(1.7) + w * P(1.7 * st); Rot R(u, XAxis, v, YAxis); ++evals;
+        P e = S<P>::ortho(R); if (e > worst) { worst = e; at = st; } }
+    if (!(worst <= 200 * NTraits<P>::getEps()))
+        S<P>::fail("two-axes:nearly-parallel-loses-orthogonality", "u 0.3 -0.5 0.8 (normalized), v = 1.7(u + sin_angle*w), sin_angle %.3e: orthogonality error %.3e = %.0f eps", at, (double)worst, (double)(worst / NTraits<P>::getEps()));
+}
 int main(int argc, char** argv) {
     unsigned long seed = argc > 1 ? std::strtoul(argv[1], 0, 10) : 1; int n = argc > 2 ? std::atoi(argv[2]) : 500;
     rng.seed(seed); S<double>::run(n); rng.seed(seed + 1); S<float>::run(n);
+    conditioning<double>(); conditioning<float>();
     std::printf("DONE %ld\n", evals); return 0;
 }
